@@ -517,6 +517,7 @@ static int worker_loop(uint64_t base, const char *fpfile, int nsamples)
 		for (uint64_t i = first; i < first + cnt; i++) {
 			RunSpec spec;
 			spec.seed = run_seed(base, g_prop.c_str(), i);
+			spec.index = i;
 			g_h->gen(g_prop.c_str(), spec);
 			shared_reset();
 			slot = i;
@@ -640,6 +641,7 @@ int harness_main(int argc, char **argv, const Harness *h)
 			if (!spec_from_json(text, spec, err)) { fprintf(stderr, "simk: %s: %s\n", replay, err.c_str()); rm_rf(g_scratch); return 2; }
 		} else if (one) {
 			spec.seed = run_seed(base, prop, index);
+			spec.index = index;
 			h->gen(prop, spec);
 		} else { fprintf(stderr, "simk: need --worker, --one or --replay\n"); rm_rf(g_scratch); return 2; }
 		Result r; std::string errtext;
